@@ -59,7 +59,13 @@ class Config:
     sched: dict[str, str] = field(default_factory=dict)  # param -> fn name
     grad_scaler: float | None = None
     sgd_lr: float = 0.05
+    ddp: bool = True               # driver averages gradients over ranks (a
+                                   # synchronising collective per iteration);
+                                   # False lets ranks drift apart (C03)
     union: int = 1                 # W=1 run on the union of `union` rank batches
+    inmem_ckpt: bool = False       # keep the state_dict as a live in-memory
+                                   # object (not serialised / copied) and load
+                                   # that very object later
     fresh_perturb: bool = False    # a resume constructs the fresh preconditioner
                                    # with OTHER constant hyper-parameters (the load must restore the saved ones)
     gpt: dict | None = None        # GPT-NeoX runs: {'D','M','bias_col','bias_row',...}
@@ -157,6 +163,23 @@ def make_model(name: str, seed: int, dtype: torch.dtype) -> torch.nn.Module:
             torch.nn.Linear(4, 5), Act(),
             torch.nn.Linear(5, 2, bias=False),
         )
+    elif name == 'conv3':
+        # conv -> activation -> conv without padding: the second conv's input
+        # is a tensor an upstream op saved for its backward pass
+        m = torch.nn.Sequential(
+            torch.nn.Conv2d(2, 3, kernel_size=2), Act(),
+            torch.nn.Conv2d(3, 2, kernel_size=2, padding=0), Act(),
+            torch.nn.Flatten(),
+            torch.nn.Linear(8, 4),
+        )
+    elif name == 'eq':
+        # equal-shaped layers (A 5x5, G 4x4 for all three): same-sized
+        # tensors are in flight at the same time
+        m = torch.nn.Sequential(
+            torch.nn.Linear(4, 4), Act(),
+            torch.nn.Linear(4, 4), Act(),
+            torch.nn.Linear(4, 4),
+        )
     elif name == 'mixb':
         # bias-free, biased, bias-free: a bias-free layer is registered
         # before a biased one (A 3,6,4  G 5,4,2)
@@ -183,12 +206,12 @@ def make_model(name: str, seed: int, dtype: torch.dtype) -> torch.nn.Module:
 
 def in_shape(name: str) -> tuple[int, ...]:
     return {'mlp3': (4,), 'mlp2': (3,), 'mlp2nb': (3,), 'conv': (2, 4, 4),
-            'mlp4': (4,), 'conv2': (2, 5, 4), 'nd': (3, 4), 'mixb': (3,)}[name]
+            'mlp4': (4,), 'conv2': (2, 5, 4), 'nd': (3, 4), 'mixb': (3,), 'eq': (4,), 'conv3': (2, 4, 4)}[name]
 
 
 def out_shape(name: str) -> tuple[int, ...]:
     return {'mlp3': (2,), 'mlp2': (3,), 'mlp2nb': (2,), 'conv': (4,),
-            'mlp4': (2,), 'conv2': (4,), 'nd': (3, 2), 'mixb': (2,)}[name]
+            'mlp4': (2,), 'conv2': (4,), 'nd': (3, 2), 'mixb': (2,), 'eq': (4,), 'conv3': (4,)}[name]
 
 
 def make_batch(cfg: Config, seed: int, rank: int, it: int, mb: int,
@@ -381,7 +404,7 @@ class RankRun:
                         p.grad.div_(cfg.grad_scaler)
                     if n_micro > 1:
                         p.grad.div_(n_micro)
-            if cfg.W > 1:
+            if cfg.W > 1 and cfg.ddp:
                 with simdist.owner('driver'):
                     for p in self.model.parameters():
                         if p.grad is not None:
@@ -442,6 +465,7 @@ class RankRun:
                     torch.save(sd, buf)
                     buf.seek(0)
                     self.ckpt = torch.load(buf, weights_only=False)
+                    self.ckpt_live = sd
                     rec['ckpt_keys'] = sorted(sd.keys())
             elif kind == 'load':
                 comp = op[1] if len(op) > 1 else True
@@ -460,7 +484,9 @@ class RankRun:
                     self.model)
                 self._make_sched()
                 self.pre.load_state_dict(
-                    copy.deepcopy(self.ckpt), compute_inverses=bool(comp),
+                    self.ckpt_live if self.cfg.inmem_ckpt
+                    else copy.deepcopy(self.ckpt),
+                    compute_inverses=bool(comp),
                 )
                 self.snapshot('load')
             elif kind in ('mem', 'mem_on'):
